@@ -3,7 +3,7 @@
     Proofs13*.v and followed by [Print Assumptions].  Model: Model13.v (heap with the implementation's link
     fields; the kidOK table and the numeric codes are regenerated from /repo on every run).  Spec: Spec13.v. *)
 From Coq Require Import NArith List Bool Arith.
-From XV Require Import Base.XDefs Gen.GenKidOK C13.Ops13 C13.Spec13 C13.Model13 C13.Abs13 C13.Proofs13a.
+From XV Require Import Base.XDefs Gen.GenKidOK C13.Ops13 C13.Spec13 C13.Model13 C13.Abs13 C13.Proofs13a C13.Proofs13b C13.Proofs13c C13.Proofs13d C13.Proofs13e.
 Import ListNotations.
 
 (** tie to the source: the regenerated kidOK table is the DOM structure model *)
@@ -51,3 +51,66 @@ Theorem T13_fragment_into_document_refuted :
   sstep (abs h0) (OAppend 0 1) = (abs h0, RErr HIERARCHY).
 Proof. exact frag_into_doc_found. Qed.
 Print Assumptions T13_fragment_into_document_refuted.
+
+(** T13_wf_preserved, the part that is PROVED (hence the suffix): the upward half of well-formedness,
+    [WFup h] = every parent pointer is a live node (a node has at most one parent by construction: one fOwnerNode
+    field) + acyclicity as a rank to the root (from every node the parent walk ends) + ownerDocument uniform
+    (a non-leaf child carries its parent's fOwnerDocument, a Document owns itself and has no parent; leaf nodes read
+    theirs through the parent), is preserved by EVERY operation of the repaired model with ARBITRARY operands,
+    whatever the result (value, exception or skip).  Unconditional thanks to the F18 repair.
+    NOT proved (checked on every run by the harness's model-free consistency check and by abs(heap) = reference store
+    after every operation): the sibling-chain clauses (firstChild/nextSibling chain = the owned nodes, previousSibling
+    its inverse, first.prev = last, flags agree with links). *)
+Theorem T13_wf_preserved_partial : forall h o h' r, WFup h -> step h o = (h', r) -> WFup h' /\ length h <= length h'.
+Proof. exact step_G. Qed.
+Print Assumptions T13_wf_preserved_partial.
+
+(** lifted to every heap reachable from n empty documents by any operation sequence *)
+Theorem T13_wf_reachable_partial : forall n l h rs, run_cfg cfg_fixed (init_heap n) l = (h, rs) -> WFup h.
+Proof. intros n l h rs. apply run_WFup. apply WFup_init. Qed.
+Print Assumptions T13_wf_reachable_partial.
+
+(** in particular no operation sequence makes a node its own parent (contrast T13_insert_self_refuted) *)
+Theorem T13_no_self_parent : forall n l h rs c, run_cfg cfg_fixed (init_heap n) l = (h, rs) -> c < length h -> parent h c <> Some c.
+Proof. intros n l h rs c E. apply WFup_not_own_parent. eapply run_WFup; [apply WFup_init|exact E]. Qed.
+Print Assumptions T13_no_self_parent.
+
+(** non-vacuity: a reachable heap with three levels, a moved subtree, a clone and a fragment insertion *)
+Example T13_wf_nonvacuous :
+  let l := [OCreate 0 TElem A []; OAppend 0 2; OCreate 0 TElem A []; OAppend 2 3; OCreate 0 TText [] X; OAppend 3 4;
+            OClone 2 true; OCreate 0 TFrag [] []; OAppend 8 5; OAppend 3 8; OAppend 5 2] in
+  let '(h, rs) := run_cfg cfg_fixed (init_heap 2) l in
+  kids h 2 = [3] /\ kids h 3 = [4; 5] /\ last rs ROk = RErr HIERARCHY /\ WFup h.
+Proof. cbv zeta. destruct (run_cfg _ _ _) as [h rs] eqn:E. split; [|split; [|split]];
+  try (vm_compute in E; injection E as <- <-; vm_compute; reflexivity). eapply run_WFup; [apply (WFup_init 2)|exact E]. Qed.
+
+(** T13_chardata: INDEX_SIZE_ERR exactly when offset > length (insertData, deleteData, substringData, splitText);
+    insertData splices at the offset *)
+Theorem T13_chardata_index : forall h n off cnt s, n_ro (nd h n) = false ->
+  (snd (cd_insert h n off s) = RErr INDEX_SIZE <-> length (n_val (nd h n)) < off) /\
+  (snd (cd_delete h n off cnt) = RErr INDEX_SIZE <-> length (n_val (nd h n)) < off) /\
+  (snd (cd_substring h n off cnt) = RErr INDEX_SIZE <-> length (n_val (nd h n)) < off) /\
+  (length (n_val (nd h n)) < off -> forall cf, split_text cf h n off = (h, RErr INDEX_SIZE)).
+Proof.
+  intros h n off cnt s R. repeat split; try apply cd_insert_index; try apply cd_delete_index; try apply cd_substring_index; auto.
+  intros L cf. apply split_index; assumption.
+Qed.
+Print Assumptions T13_chardata_index.
+
+Theorem T13_chardata_insert : forall h n off s, n < length h -> n_ro (nd h n) = false -> off <= length (n_val (nd h n)) ->
+  n_val (nd (fst (cd_insert h n off s)) n) = firstn off (n_val (nd h n)) ++ s ++ skipn off (n_val (nd h n)).
+Proof. exact cd_insert_value. Qed.
+Print Assumptions T13_chardata_insert.
+
+(** exceptions leave the heap unchanged -- proved for removeChild and the character-data operations (which check
+    before they mutate); for insertBefore/replaceChild/splitText/cloneNode/normalize it is NOT proved (and it is false for
+    a DocumentFragment moved into a Document, T13_fragment_into_document_refuted); the correspondence compares the full
+    dump after every raising operation *)
+Theorem T13_error_unchanged_partial : forall h p c n off cnt s h' e,
+  (v_remove h p c = (h', RErr e) \/
+   cd_set h n s = (h', RErr e) \/ cd_append h n s = (h', RErr e) \/ cd_insert h n off s = (h', RErr e) \/
+   cd_delete h n off cnt = (h', RErr e) \/ cd_substring h n off cnt = (h', RErr e)) -> h' = h.
+Proof.
+  intros h p c n off cnt s h' e [H|H]; [eapply v_remove_error_unchanged; exact H|eapply chardata_error_unchanged; exact H].
+Qed.
+Print Assumptions T13_error_unchanged_partial.
